@@ -73,11 +73,18 @@ PROPS["C17"] = {
              "u32::MAX-k (k <= 2*entries+2) or random. Oracle: two FIFO queues + slot-ownership map, checked after every step "
              "(sequence stamped in user_data seen by the kernel in order without gap/duplicate; slot pointer and None<=>full; "
              "flush count and published tail; completion content, slot, head advanced by exactly one; None<=>empty). "
-             "Non-trivial = a counter crossed 2^32 or 2^31, or the completion ring was full at some step; distinct by hash of the case."),
+             "Sub-check real: the same hand-over against the REAL kernel on rings made by setup_io_uring(entries 1..9 mostly, 10..40, 64, 100; "
+             "no flags): histories of <=120 steps {fill k NOPs stamped with sequence numbers, flush, io_uring_enter(everything flushed), "
+             "reap k}; oracle: a slot is refused exactly when all (rounded-up) slots are in use, the kernel consumes exactly what was "
+             "flushed, completions carry the sequence numbers exactly once and in order (NOPs complete inline), res 0. "
+             "Non-trivial = a counter crossed 2^32 or 2^31, or the completion ring was full at some step (real: more submissions than "
+             "the ring has slots); distinct by hash of the case."),
     "assumptions": ["the simulated kernel follows the io_uring ABI (indices are free-running u32, masked on use)",
                     "call granularity: ring memory is not changed by the kernel side during an application call",
-                    "the IoUring value is built through the verif-hooks constructor, not by io_uring_setup"],
-    "required_classes": ["ring:counter-crossed-2^32", "ring:counter-crossed-2^31", "ring:cq-full", "ring:sq-full-none", "ring:sqe128", "ring:cqe32", "ring:ring-size-1"],
+                    "sub-check ring: the IoUring value is built through the verif-hooks constructor, not by io_uring_setup; sub-check real: built by setup_io_uring, index wrap is out of reach there",
+                    "sub-check real: NOP submissions without flags complete inline, in submission order (true of every kernel so far; observed here), so completion order shows consumption order"],
+    "required_classes": ["ring:counter-crossed-2^32", "ring:counter-crossed-2^31", "ring:cq-full", "ring:sq-full-none", "ring:sqe128", "ring:cqe32", "ring:ring-size-1",
+                         "real:entries-not-power-of-two", "real:sq-slots-cycled-3x", "real:sq-full-none"],
 }
 
 
